@@ -1273,6 +1273,7 @@ def run_singles(mon, st):
                        'CreateInstance(%s, namespace=%r) [%s%s]' % (
                            short(repr(v), 500), ns, reason,
                            ', cross-namespace' if multi else ''), tag=tag)
+                class_gone = False
                 if multi:
                     other_ns = [p.value.namespace for p in
                                 inst.properties.values()
@@ -1321,8 +1322,13 @@ def run_singles(mon, st):
                            'present in %r only]' % (shadow.path, plant_ns),
                            tag=tag)
                         # DeleteClass deletes the instances one by one; the
-                        # planted one cannot be deleted
-                        go('DeleteClass', 'instance-delete-fails-midway',
+                        # planted one has no twin.  (Since the repair of
+                        # DeleteInstance for one-sided associations this
+                        # succeeds and removes the class, so it is the last
+                        # step of the last pass.)
+                        if where == 'target' and rng.random() < 0.15:
+                            class_gone = go(
+                                'DeleteClass', 'instance-delete-fails-midway',
                            lambda: conn.DeleteClass(ac.name,
                                                     namespace=plant_ns),
                            'DeleteClass(%r, namespace=%r) [%d instances, one '
@@ -1330,15 +1336,20 @@ def run_singles(mon, st):
                            'this namespace only: %s]' % (
                                ac.name, plant_ns,
                                len(st.instances_of(plant_ns, ac)),
-                               shadow.path), tag=tag)
-                        # remove the planted instance again (store accessor;
-                        # DeleteInstance cannot, see above)
+                               shadow.path), tag=tag) is None
+                        # remove the planted instance again, if the calls
+                        # above left it there (store accessor)
                         try:
                             st.touched = True
                             conn.cimrepository.get_instance_store(
                                 plant_ns).delete(shadow.path)
-                        except KeyError:
-                            break
+                        except (KeyError, pywbem.Error):
+                            pass
+                    if class_gone:
+                        # the class was deleted in one namespace: nothing
+                        # more to do with this association class
+                        mon.ctx.count('assoc-class-deleted-by-scenario')
+                        continue
                 # namespace names are case insensitive: the same call with
                 # the namespaces spelled differently in the references or in
                 # the namespace parameter (valid unless the instance exists;
